@@ -823,8 +823,11 @@ class Prop(Check):
             reads = [f for f in s["reads"] if f < n]
             if kind == "strfile" and step["main"] in reads:
                 reads.remove(step["main"])
+            # a model without file name gets its repository in `ImportURI.load_models`; a loader attached to
+            # the references (RREL) never runs for a model without references: such a model sees no dict
+            no_repo = kind == "str" and case["provider"] == "rrel" and not eff_refs(step["text"])
             raw.append({"res": s["res"], "reads": reads, "ret": None if kind == "preload" else s["ret"],
-                        "all": dct(s["all"]) if s["res"] == "ok" else [],
+                        "all": dct(s["all"]) if s["res"] == "ok" and not no_repo else [],
                         "mm": dct(s["all"]) if case["glob"] else None,
                         "locs": [[i, f if f < n else "str", dct(d)] for i, f, d in s["locs"]], "tgt": s["tgt"]})
         return canonical(raw)
